@@ -20,7 +20,8 @@ RULE = ("a registry of public array-taking calls (record-file writers binary/tex
         "native or byte-swapped, contiguous / strided view / offset view into a larger buffer / Fortran-ordered "
         "2-d / 0-d where the call takes them; values expanded from a drawn seed. Non-trivial: at least one "
         "argument that forces an internal conversion (non-native, non-contiguous, f4 or integer, or a structured "
-        "table in big-endian order). Distinct = distinct case JSON.")
+        "table in big-endian order). Distinct = distinct case JSON."
+        " Arrays built from esutil results and handed on (precomputed htm ids / reverse indices) are watched as well; text writers are also run with padnull/ignorenull and after a native table was written through the same handle; wcsutil.wrap_ra_diff is part of the registry.")
 ASSUMPTIONS = [
     "arguments documented as modified (copy_fields target, copy_fields_by_name target, inplace=True, the in-place "
     "sorts) are not snapshotted",
